@@ -2,6 +2,7 @@ package main
 
 import (
 	"fmt"
+	"regexp"
 	"strings"
 
 	"github.com/safing/portbase/database/query"
@@ -197,6 +198,8 @@ func (c *Cond) build() query.Condition {
 		return query.Where("Ratio", query.FloatGreaterThan, float64(c.N)/4)
 	case "in":
 		return query.Where("Tag", query.In, c.inList())
+	case "re":
+		return query.Where("Tag", query.Matches, c.S)
 	case "not":
 		return query.Not(c.Kids[0].build())
 	case "and", "or":
@@ -242,6 +245,9 @@ func (c *Cond) eval(score int, tag string) bool {
 		return score/10 > c.N
 	case "ratio":
 		return float64(score)/4 > float64(c.N)/4
+	case "re":
+		// reference: Go regexp, unanchored search unless the expression anchors itself
+		return regexp.MustCompile(c.S).MatchString(tag)
 	case "in":
 		for _, t := range strings.Split(c.S, ",") {
 			if t == tag {
@@ -292,7 +298,7 @@ func (c *Cond) String() string {
 		return c.Op + "(" + strings.Join(ks, ",") + ")"
 	case "in":
 		return fmt.Sprintf("in:%s/%d", c.S, c.N)
-	case "tag", "pre", "con", "state":
+	case "tag", "pre", "con", "state", "re":
 		return c.Op + ":" + c.S
 	}
 	return fmt.Sprintf("%s:%d", c.Op, c.N)
